@@ -58,37 +58,37 @@ def to_md(form: dict) -> str:
     return "\n".join(lines) + "\n"
 
 
-def run(form: dict, pretty: bool = False, via: str = "dict", want_survey: bool = False, **kw) -> dict:
-    """Convert; classify the outcome.  `class`: ok | pyxform | internal."""
+def classify_call(fn, want_survey: bool = False) -> dict:
+    """Run `fn()` (a call of pyxform's convert) and classify the outcome: ok | pyxform | internal.
+    For internal exceptions: exception class, innermost pyxform frame `file:function`, and the chain
+    of pyxform frames (`sites`)."""
     from pyxform.errors import PyXFormError
-    from pyxform.xls2xform import convert
 
     try:
-        if via == "dict":
-            res = convert(xlsform=copy.deepcopy(wb_dict(form)), pretty_print=pretty, **kw)
-        elif via == "md":
-            res = convert(xlsform=to_md(form), pretty_print=pretty, file_type=".md", **kw)
-        else:
-            raise ValueError(via)
+        res = fn()
     except PyXFormError as e:
         return {"class": "pyxform", "ok": False, "msg": str(e), "exc": type(e).__name__}
     except RecursionError as e:
-        return {"class": "internal", "ok": False, "msg": "RecursionError", "exc": "RecursionError"}
+        return {"class": "internal", "ok": False, "msg": "RecursionError", "exc": "RecursionError", "site": ""}
     except Exception as e:  # noqa: BLE001
         import traceback
 
         tb = traceback.extract_tb(e.__traceback__)
         site = ""
+        sites = []
         for fr in reversed(tb):
             if "/pyxform/" in fr.filename:
-                site = f"{Path(fr.filename).name}:{fr.name}"
-                break
+                s = f"{Path(fr.filename).name}:{fr.name}"
+                if not site:
+                    site = s
+                sites.append(s)
         return {
             "class": "internal",
             "ok": False,
             "msg": f"{type(e).__name__}: {e}",
             "exc": type(e).__name__,
             "site": site,
+            "sites": sites[:6],
         }
     out = {
         "class": "ok",
@@ -101,3 +101,25 @@ def run(form: dict, pretty: bool = False, via: str = "dict", want_survey: bool =
         out["_survey"] = res._survey
         out["_pyxform"] = res._pyxform
     return out
+
+
+def run(form: dict, pretty: bool = False, via: str = "dict", want_survey: bool = False, **kw) -> dict:
+    """Convert; classify the outcome.  `class`: ok | pyxform | internal."""
+    from pyxform.xls2xform import convert
+
+    if via == "dict":
+        fn = lambda: convert(xlsform=copy.deepcopy(wb_dict(form)), pretty_print=pretty, **kw)  # noqa: E731
+    elif via == "md":
+        fn = lambda: convert(xlsform=to_md(form), pretty_print=pretty, file_type=".md", **kw)  # noqa: E731
+    else:
+        raise ValueError(via)
+    return classify_call(fn, want_survey)
+
+
+def run_raw(xlsform, file_type: str | None = None, **kw) -> dict:
+    """Convert a raw definition (markdown / csv text, or a workbook dict exactly as given)."""
+    from pyxform.xls2xform import convert
+
+    if isinstance(xlsform, dict):
+        return classify_call(lambda: convert(xlsform=copy.deepcopy(xlsform), **kw))
+    return classify_call(lambda: convert(xlsform=xlsform, file_type=file_type, **kw))
